@@ -282,7 +282,8 @@ void    finish_rule (int mach, bool variable_trail_rule, int headcnt, int trailc
 	if (!continued_action)
 		add_action ("M4_HOOK_SET_RULE_SETUP\n");
 
-	line_directive_out(NULL, infilename, linenum);
+	/* For a continued action the newline has been counted already. */
+	line_directive_out(NULL, infilename, continued_action ? linenum - 1 : linenum);
         add_action("[[");
 }
 
